@@ -34,6 +34,13 @@ def build_flex(cflags=None, tag='flex'):
                     '--exclude', 'doc', '--exclude', 'examples', REPO + '/', root + '/'], check=True)
     src = os.path.join(root, 'src')
     import glob
+    # the configured Makefiles carry /repo as absolute build directory (used to locate stage1flex):
+    # point them at the scratch copy so that nothing stale from /repo's own build products is used
+    for mk in [os.path.join(root, 'Makefile'), os.path.join(src, 'Makefile')]:
+        if os.path.exists(mk):
+            t = open(mk, errors='replace').read().replace(REPO.rstrip('/') + '/', root + '/').replace(
+                '= ' + REPO.rstrip('/') + '\n', '= ' + root + '\n')
+            open(mk, 'w').write(t)
     for pat in GENERATED:
         for f in glob.glob(os.path.join(src, pat)):
             if os.path.isdir(f):
